@@ -55,7 +55,7 @@ class Gen:
         if k == "var":
             return self.kinds[e[1]] == "int"
         if k == "lit":
-            return False
+            return self.is_const(e[2])  # the compiler folds through typed literals
         return all(self.is_const(x) for x in e[1:] if isinstance(x, tuple))
 
     def const_val(self, e):
@@ -139,6 +139,10 @@ class Gen:
                 a, b = b, a
             if self.is_const(a) and self.is_const(b):
                 a = self.sig_leaf()
+            if self.is_const(a) and a[0] not in ("int", "var"):
+                # compound constant on the left of a signal: known finding S14 (typed as an implicit
+                # signal instead of being absorbed); exercised by its fixed witness
+                a = self.int_leaf()
             return ("bin", op, a, b)
         if x < 0.50:
             op = r.choice(BITS)
@@ -175,7 +179,9 @@ class Gen:
         for _ in range(n_inputs):
             nm = next(names)
             ty = r.choice(SIGNALS[:5]) if r.random() < 0.85 else None
-            self.decls.append(("in", nm, ty, r.choice([1, 2, 3, 5, 7, 9, 11, 20, -4, 0])))
+            # declared values 0 and 1 are excluded: known finding S13 (the boolean shortcut of && / ||
+            # trusts the declared value of an input); exercised by its fixed witness
+            self.decls.append(("in", nm, ty, r.choice([2, 3, 5, 7, 9, 11, 20, -4, 100])))
             self.kinds.append("sig")
             self.consts.append(None)
         for _ in range(n_decls):
@@ -195,6 +201,76 @@ class Gen:
         return self.decls
 
 
+class Unsafe(Exception):
+    pass
+
+
+def const_check(e, kinds, consts):
+    """every constant sub-expression must lie in the region where the compiler's unbounded /
+    floor arithmetic and the documented int32 run-time arithmetic agree (outside: known finding S2).
+    returns the value if e is constant, else None"""
+    k = e[0]
+    if k == "int":
+        return e[1]
+    if k == "var":
+        return consts[e[1]] if kinds[e[1]] == "int" else None
+    subs = [const_check(x, kinds, consts) for x in e[1:] if isinstance(x, tuple)]
+    if any(s is None for s in subs):
+        return None
+    if k == "lit" or k == "proj":
+        return subs[0]
+    if k == "neg":
+        v = -subs[0]
+    elif k == "not":
+        v = 1 if subs[0] == 0 else 0
+    elif k == "bin":
+        a, b = subs
+        op = e[1]
+        if op in ("/", "%") and b != 0 and (a < 0 or b < 0):
+            raise Unsafe(e)
+        if op in ("<<", ">>", "**") and not (0 <= b < 32):
+            raise Unsafe(e)
+        if op == "<<" and a < 0:
+            raise Unsafe(e)
+        v = {"+": lambda: a + b, "-": lambda: a - b, "*": lambda: a * b, "**": lambda: a ** b, "<<": lambda: a << b,
+             ">>": lambda: a >> b, "/": lambda: 0 if b == 0 else a // b, "%": lambda: 0 if b == 0 else a % b,
+             "AND": lambda: a & b, "OR": lambda: a | b, "XOR": lambda: a ^ b}[op]()
+    elif k == "cmp":
+        from facto_ast import cmp as _cmp
+        v = 1 if _cmp(e[1], subs[0], subs[1]) else 0
+    elif k == "and":
+        v = 1 if (subs[0] != 0 and subs[1] != 0) else 0
+    elif k == "or":
+        v = 1 if (subs[0] != 0 or subs[1] != 0) else 0
+    elif k == "cond":
+        v = subs[1] if subs[0] != 0 else 0
+    else:
+        raise Unsafe(e)
+    if not in32(v):
+        raise Unsafe(e)
+    return v
+
+
+def program_safe(decls):
+    kinds, consts = [], []
+    try:
+        for d in decls:
+            if d[0] == "in":
+                kinds.append("sig")
+                consts.append(None)
+            else:
+                v = const_check(d[2], kinds, consts)
+                kinds.append(d[0])
+                consts.append(v if d[0] == "int" else None)
+    except Unsafe:
+        return False
+    return True
+
+
 def gen_program(seed, **kw):
-    g = Gen(random.Random(seed), **kw)
-    return g.program()
+    for k in range(50):
+        g = Gen(random.Random(seed * 50 + k if k else seed), **kw)
+        p = g.program()
+        if program_safe(p):
+            return p
+    return p
